@@ -85,17 +85,34 @@ def shape(tokens):
     return breaks, comm
 
 
+def _squash(s):
+    return "".join(s.split())
+
+
 def compare(before, after):
     """List of (kind, how, detail, first_type)."""
+    import difflib
+
     fails = []
     cb, mb, ob = profile(before)
     ca, ma, oa = profile(after)
+    lost_comments = list((mb - ma).elements())
+    new_comments = list((ma - mb).elements())
+    swallowed = False
     if cb != ca:
         i = fixlib.first_diff(cb, ca)
         tb = [t for t in before if t[1] == "code"]
         ftype = tb[i][2] if i < len(tb) else "-"
+        lost_code = []
+        for tag, i1, i2, _, _ in difflib.SequenceMatcher(None, cb, ca, autojunk=False).get_opcodes():
+            if tag in ("delete", "replace"):
+                lost_code.extend(cb[i1:i2])
+        newc = _squash("".join(new_comments))
         if "".join(cb) == "".join(ca):
             how = "reboundary"  # same characters, other token boundaries (tokens glued or split)
+        elif lost_code and newc and all(_squash(t) in newc for t in lost_code):
+            how = "into-comment"  # the missing code now sits inside a comment
+            swallowed = True
         elif len(ca) < len(cb):
             how = "lost"
         elif len(ca) > len(cb):
@@ -104,9 +121,8 @@ def compare(before, after):
             how = "altered"
         fails.append(("code-changed", how, f"code tokens differ at #{i}: {cb[i:i + 4]} -> {ca[i:i + 4]}", ftype))
     if mb != ma:
-        lost = list((mb - ma).elements())[:3]
-        new = list((ma - mb).elements())[:3]
-        how = "lost" if lost and not new else "added" if new and not lost else "altered"
+        lost, new = lost_comments[:3], new_comments[:3]
+        how = "from-code" if swallowed else "lost" if lost and not new else "added" if new and not lost else "altered"
         marker = (new or lost)[0][:2]
         fails.append(("comment-changed", how, f"comments lost {lost} new {new}", "comment:" + marker))
     if ob != oa:
@@ -142,6 +158,10 @@ class C14(Check):
         assert compare(t("a", " ", "b"), t("ab"))[0][:2] == ("code-changed", "reboundary")
         assert compare(t("a", ",", "b"), t("a", "b"))[0][:2] == ("code-changed", "lost")
         assert compare(t("a", "--c", "\n"), t("a", "\n"))[0][:2] == ("comment-changed", "lost")
+        r = compare(t("a", "--c", "\n", "b"), t("a", "--c b", "\n"))
+        assert [x[:2] for x in r] == [("code-changed", "into-comment"), ("comment-changed", "from-code")], r
+        r = compare(t("-", " ", "-", "5"), t("--5"))
+        assert [x[:2] for x in r] == [("code-changed", "into-comment"), ("comment-changed", "from-code")], r
         assert compare(t("a", "\x0c", "b"), t("a", " ", "b"))[0][0] == "non-blank-ws"
         assert compare(t("a", "\r\n", "b"), t("a", "\n", "b")) == []
 
@@ -201,7 +221,8 @@ class C14(Check):
                 return any(x[0] == kind for x in f)
 
             rule = fixlib.attribute(case, run.fixing_rules(), still)
-            out.fail(detail + f" | fixed={run.fixed[:120]!r}", kind=kind, how=how, rule=rule, first=ftype)
+            out.fail(detail + f" | fixed={run.fixed[:120]!r}", kind=kind, how=how, rule=rule, first=ftype,
+                     implicit_indents=(rc.get("indentation") or {}).get("implicit_indents", "forbid"))
         return out
 
 
